@@ -8,7 +8,7 @@ import re
 from ..core import Ctx, RuleResult, finding, short
 from ..model import AnalysisError, norm
 from ..mutants import Mut
-from ..rules import accum, optcall, dim, noop, posbound
+from ..rules import accum, alias, optcall, dim, noop, posbound
 from ..rules.geom import LOOP_INDEX, ClassGeom
 from ..rules.util import lin_str, linear, cfg_of, nodes_where
 from ..tables import C09_DIM_EXCEPTIONS, C09_SIZE_EXCEPTIONS
@@ -26,6 +26,7 @@ EXPLANATION = (
     ' Added after seed round 3: (9) ACCUM - the row offsets of Pile.move_cursor_to_coords / mouse_event and ListBox.mouse_event advance for every item passed; (10) Edit.move_cursor_to_coords compares the requested row only with rows derived from the layout (position_coords / get_line_translation).'
     ' Round 4: (11) OPTCALL (see C08.13); C09.10 now requires both bounds of the requested row and reports a missing one.'
     ' Round-4 triage: (12) Columns hit-testing skips hidden columns like render(); (13) ScrollBar.mouse_event subtracts the bar width from the column under the same side test under which render() draws the bar on the left. Round-5 triage: (14) Padding / Filler forward a mouse event only after a bounds test on every size branch.'
+    ' Round 6: (15) ALIAS: the coords / shortcuts dictionaries a canvas edits in place (set_cursor, overlay, _drop_trimmed_cursor) only ever hold an object of its own - CompositeCanvas(canv) sharing canv.coords would write the top widget\'s cursor into the cached bottom canvas; Frame.keypress body size is compared with render (exception removed).'
 )
 NOT_DECIDED = (
     "Agreement with the rendered canvas cursor (needs canvas semantics), loops of Pile/Columns/ListBox that accumulate offsets (equivalence of different loop shapes is not syntactic), "
@@ -534,6 +535,7 @@ def run(ctx: Ctx):
         _empty_guard(ctx),
         accum.run_accum(p, "C09.9", "C09", floor=3),
         rule_edit_row_range(ctx),
+        alias.run_inplace_own(p, "C09.15", ["urwid.canvas"], floor=6, exempt={"shards": "shared on purpose, copy-on-write decided by FRESHLIST (C06.2c)"}),
         optcall.run_optcall(p, "C09.11", ("urwid.widget",), floor=35),
         rule_hidden_columns(ctx),
         rule_scrollbar_side(ctx),
